@@ -1,26 +1,465 @@
-(* C20 — proofs about the model Conc/Flush.v *)
-From Coq Require Import List NArith Bool Lia.
+(* C20 — proofs about the model Conc/Flush.v: invariants of the transition system over ALL label sequences
+   (all schedules, any number of goroutines / entries / writers, any queue capacity). *)
+From Coq Require Import List NArith Bool Lia ZifyBool ZifyN.
 From TarsV Require Import Conc.Flush.
 Import ListNotations.
 Open Scope N_scope.
 
-(* the code before the fix: the 6-step schedule that loses the entry logged just before the flush *)
-Example unfixed_loses_entry :
-  exists s, grun false 10 init
-     [PollEmpty; LogCall (mkE 0 0 0); Enq 0; LogRet (mkE 0 0 0); FlushCall; Request; InnerSync; FlushRet true] = Some s
-     /\ pre_call s = [mkE 0 0 0] /\ written s = [] /\ fl s = FReturned true.
-Proof. eexists. vm_compute. repeat split. Qed.
+(* ---------- small facts ---------- *)
 
-(* the same schedule on the repaired code cannot acknowledge the flush before the drain *)
-Example fixed_same_schedule :
-  exists s, run 10 init
-     [PollEmpty; LogCall (mkE 0 0 0); Enq 0; LogRet (mkE 0 0 0); FlushCall; Request; InnerSync; DrainTake (mkE 0 0 0); DrainDone; FlushRet true] = Some s
-     /\ written s = [mkE 0 0 0] /\ fl s = FReturned true.
-Proof. eexists. vm_compute. repeat split. Qed.
+Lemma entry_eqb_eq a b : entry_eqb a b = true <-> a = b.
+Proof.
+  unfold entry_eqb. destruct a as [g n w], b as [g' n' w']; cbn.
+  rewrite !andb_true_iff, !N.eqb_eq. split.
+  - intros [[-> ->] ->]. reflexivity.
+  - intros E. inversion E. auto.
+Qed.
+Lemma entry_eqb_refl a : entry_eqb a a = true.
+Proof. apply entry_eqb_eq. reflexivity. Qed.
 
-Example accepts_fixed_trace :
-  accepts [ECall (mkE 0 0 0); ERet (mkE 0 0 0); EFlushCall; EWrite (mkE 0 0 0); EFlushRet true] = true.
-Proof. vm_compute. reflexivity. Qed.
-Example rejects_lossy_trace :
-  accepts [ECall (mkE 0 0 0); ERet (mkE 0 0 0); EFlushCall; EFlushRet true] = false.
-Proof. vm_compute. reflexivity. Qed.
+Lemma upd_same {A} (f : N -> A) g v : upd f g v g = v.
+Proof. unfold upd. now rewrite N.eqb_refl. Qed.
+Lemma upd_other {A} (f : N -> A) g v x : x <> g -> upd f g v x = f x.
+Proof. unfold upd. intros H. destruct (x =? g) eqn:E; [apply N.eqb_eq in E; contradiction | reflexivity]. Qed.
+
+Definition prefix (a b : list entry) := exists c, b = a ++ c.
+Lemma prefix_app a b c : prefix a b -> prefix a (b ++ c).
+Proof. intros [d ->]. exists (d ++ c). now rewrite app_assoc. Qed.
+Lemma prefix_refl a : prefix a a.
+Proof. exists []. now rewrite app_nil_r. Qed.
+Lemma prefix_trans a b c : prefix a b -> prefix b c -> prefix a c.
+Proof. intros [d ->] [e ->]. exists (d ++ e). now rewrite app_assoc. Qed.
+Lemma prefix_incl a b : prefix a b -> incl a b.
+Proof. intros [c ->] x H. apply in_or_app. now left. Qed.
+Lemma prefix_nil a : prefix [] a.
+Proof. now exists a. Qed.
+
+(* two prefixes of one list are comparable *)
+Lemma prefix_comparable a b l : prefix a l -> prefix b l -> prefix a b \/ prefix b a.
+Proof.
+  revert b l. induction a as [|x a IH]; intros b l Ha Hb. { left. apply prefix_nil. }
+  destruct b as [|y b]. { right. apply prefix_nil. }
+  destruct Ha as [c ->]. destruct Hb as [d Hd]. cbn in Hd. inversion Hd; subst.
+  destruct (IH b (a ++ c)) as [[e ->] | [e ->]].
+  - now exists c.
+  - now exists d.
+  - left. now exists e.
+  - right. now exists e.
+Qed.
+
+(* per-goroutine order of a list of entries: later entries of the same goroutine have larger numbers *)
+Fixpoint ord (l : list entry) : Prop :=
+  match l with
+  | [] => True
+  | e :: r => (forall e2, In e2 r -> eg e2 = eg e -> en e < en e2) /\ ord r
+  end.
+
+Lemma ord_snoc l e : ord (l ++ [e]) <-> ord l /\ (forall e1, In e1 l -> eg e1 = eg e -> en e1 < en e).
+Proof.
+  induction l as [|x l IH]; cbn.
+  - split; [intros _; split; [exact I | intros ? []] | intros _; split; [intros ? [] | exact I]].
+  - rewrite IH. split.
+    + intros [H1 [H2 H3]]. split; [split; [|exact H2] |].
+      * intros e2 Hin. apply H1. apply in_or_app. now left.
+      * intros e1 [<- | Hin] Hg; [apply H1; [apply in_or_app; right; now left | congruence] | now apply H3].
+    + intros [[H1 H2] H3]. split; [|split; [exact H2 |]].
+      * intros e2 Hin Hg. apply in_app_or in Hin. destruct Hin as [Hin | [<- | []]]; [now apply H1 | apply H3; [now left | congruence]].
+      * intros e1 Hin. apply H3. now right.
+Qed.
+
+Lemma ord_app_l a b : ord (a ++ b) -> ord a.
+Proof.
+  induction a as [|x a IH]; cbn; [trivial|]. intros [H1 H2]. split; [|now apply IH].
+  intros e2 Hin. apply H1. apply in_or_app. now left.
+Qed.
+Lemma ord_app_r a b : ord (a ++ b) -> ord b.
+Proof. induction a as [|x a IH]; cbn; [trivial|]. intros [_ H]. now apply IH. Qed.
+
+Lemma ord_NoDup l : ord l -> NoDup l.
+Proof.
+  induction l as [|x l IH]; cbn; [constructor|]. intros [H1 H2]. constructor; [|now apply IH].
+  intros Hin. specialize (H1 x Hin eq_refl). lia.
+Qed.
+
+(* the expanded reading of [ord] *)
+Lemma ord_split l : ord l -> forall a e1 b e2 c, l = a ++ e1 :: b ++ e2 :: c -> eg e1 = eg e2 -> en e1 < en e2.
+Proof.
+  intros H a e1 b e2 c ->. apply ord_app_r in H. cbn in H. destruct H as [H _].
+  intros Hg. apply H; [apply in_or_app; right; now left | congruence].
+Qed.
+
+(* ---------- the invariant ---------- *)
+
+Definition sent (s : st) (g : N) : N := match lp s g with LSending _ => cnt s g - 1 | _ => cnt s g end.
+
+Record Inv (s : st) : Prop := mkInv {
+  i_hist : hist s = written s ++ q s;
+  i_req_pre : req s = true -> prefix (pre_req s) (hist s);
+  i_done : fp s = Done -> prefix (pre_req s) (written s);
+  i_drain_req : fp s = Drain \/ fp s = Done -> req s = true;
+  i_fl_req : req s = true <-> (fl s = FRequested \/ exists b, fl s = FReturned b);
+  i_ret_done : fl s = FReturned true -> fp s = Done;
+  i_retd : incl (retd s) (hist s);
+  i_pc1 : fl s = FCalled -> incl (pre_call s) (hist s);
+  i_pc2 : req s = true -> incl (pre_call s) (pre_req s);
+  i_lt : forall e, In e (hist s) -> en e < sent s (eg e);
+  i_sending : forall g e, lp s g = LSending e -> eg e = g /\ en e + 1 = cnt s g;
+  i_sent : forall g e, lp s g = LSent e -> eg e = g /\ In e (hist s);
+  i_ord : ord (hist s)
+}.
+
+Lemma Inv_init : Inv init.
+Proof.
+  constructor; cbn; intros; try discriminate; try contradiction; try reflexivity; try (intros ? []); try exact I.
+  - destruct H as [H | H]; discriminate.
+  - split; [discriminate | intros [H | [b H]]; discriminate].
+Qed.
+
+Lemma take_inv s e p nx s' :
+  Inv s -> take s e p nx = Some s' -> (nx = Top \/ nx = Drain) -> (nx = Drain -> p = Drain) -> Inv s'.
+Proof.
+  intros I Hs Hnx Hdr. unfold take in Hs.
+  destruct (q s) as [|e' r] eqn:Q. { destruct (fp s); discriminate. }
+  destruct (_ && _) eqn:C in Hs; [|discriminate]. inversion Hs; subst s'; clear Hs.
+  apply andb_true_iff in C. destruct C as [Cp _].
+  destruct I as [H1 H2 H3 H4 H5 H6 H7 H8 H9 H10 H11 H12 H13]. rewrite Q in H1.
+  constructor; cbn; auto.
+  - rewrite H1, <- app_assoc. reflexivity.
+  - destruct Hnx; subst nx; discriminate.
+  - intros [E | E]; [|destruct Hnx; subst nx; discriminate]. subst nx. rewrite (Hdr eq_refl) in Cp.
+    apply H4. destruct (fp s); try discriminate. now left.
+  - intros F. specialize (H6 F). rewrite H6 in Cp. destruct p; discriminate.
+Qed.
+
+Lemma sent_upd_other s g x lp' cnt' :
+  x <> g -> lp' x = lp s x -> cnt' x = cnt s x ->
+  (match lp' x with LSending _ => cnt' x - 1 | _ => cnt' x end) = sent s x.
+Proof. intros _ -> ->. reflexivity. Qed.
+
+Lemma Inv_step cap s l s' : Inv s -> step cap s l = Some s' -> Inv s'.
+Proof.
+  intros I Hs. destruct l; unfold step, gstep in Hs.
+  - (* LogCall *)
+    destruct (lp s (eg e)) eqn:L; try discriminate. destruct (en e =? cnt s (eg e)) eqn:C; [|discriminate].
+    apply N.eqb_eq in C. inversion Hs; subst s'; clear Hs.
+    destruct I as [H1 H2 H3 H4 H5 H6 H7 H8 H9 H10 H11 H12 H13]. constructor; cbn; auto.
+    + intros x Hin. specialize (H10 x Hin). unfold sent in *. cbn. unfold upd.
+      destruct (eg x =? eg e) eqn:E; [|exact H10]. apply N.eqb_eq in E. rewrite E, L in H10. lia.
+    + intros g x. unfold upd. destruct (g =? eg e) eqn:E.
+      * apply N.eqb_eq in E. intros X. inversion X; subst. split; [reflexivity | lia].
+      * apply H11.
+    + intros g x. unfold upd. destruct (g =? eg e) eqn:E; [discriminate | apply H12].
+  - (* Enq *)
+    destruct (lp s g) eqn:L; try discriminate. destruct (N.of_nat (length (q s)) <? cap); [|discriminate].
+    inversion Hs; subst s'; clear Hs.
+    destruct I as [H1 H2 H3 H4 H5 H6 H7 H8 H9 H10 H11 H12 H13]. destruct (H11 _ _ L) as [Eg En].
+    constructor; cbn; auto.
+    + rewrite H1, app_assoc. reflexivity.
+    + intros R. apply prefix_app. auto.
+    + intros x Hin. apply in_or_app. left. now apply H7.
+    + intros F x Hin. apply in_or_app. left. now apply H8.
+    + intros x Hin. unfold sent in *. cbn. unfold upd. apply in_app_or in Hin. destruct Hin as [Hin | [<- | []]].
+      * specialize (H10 x Hin). destruct (eg x =? g) eqn:E; [|exact H10]. apply N.eqb_eq in E. rewrite E, L in H10. rewrite E. lia.
+      * rewrite Eg, N.eqb_refl. lia.
+    + intros g' x. unfold upd. destruct (g' =? g) eqn:E; [discriminate | apply H11].
+    + intros g' x. unfold upd. destruct (g' =? g) eqn:E.
+      * apply N.eqb_eq in E. intros X. inversion X; subst. split; [reflexivity | apply in_or_app; right; now left].
+      * intros X. destruct (H12 _ _ X). split; [assumption | apply in_or_app; now left].
+    + apply ord_snoc. split; [assumption|]. intros e1 Hin Hg. specialize (H10 e1 Hin). unfold sent in H10.
+      rewrite Hg, Eg, L in H10. lia.
+  - (* LogRet *)
+    destruct (lp s (eg e)) as [| |e'] eqn:L; try discriminate. destruct (entry_eqb e e') eqn:C; [|discriminate].
+    apply entry_eqb_eq in C. subst e'. inversion Hs; subst s'; clear Hs.
+    destruct I as [H1 H2 H3 H4 H5 H6 H7 H8 H9 H10 H11 H12 H13]. constructor; cbn; auto.
+    + intros x [<- | Hin]; [apply (H12 _ _ L) | now apply H7].
+    + intros x Hin. specialize (H10 x Hin). unfold sent in *. cbn. unfold upd.
+      destruct (eg x =? eg e) eqn:E; [|exact H10]. apply N.eqb_eq in E. rewrite E, L in H10. rewrite E. exact H10.
+    + intros g x. unfold upd. destruct (g =? eg e) eqn:E; [discriminate | apply H11].
+    + intros g x. unfold upd. destruct (g =? eg e) eqn:E; [discriminate | apply H12].
+  - (* FlushCall *)
+    destruct (fl s) eqn:F; try discriminate. inversion Hs; subst s'; clear Hs.
+    destruct I as [H1 H2 H3 H4 H5 H6 H7 H8 H9 H10 H11 H12 H13]. rewrite F in *. constructor; cbn; auto; try discriminate.
+    + rewrite H5. split; intros [X | [b X]]; discriminate.
+    + intros R. apply H5 in R. destruct R as [X | [b X]]; discriminate.
+  - (* Request *)
+    destruct (fl s) eqn:F; try discriminate. inversion Hs; subst s'; clear Hs.
+    destruct I as [H1 H2 H3 H4 H5 H6 H7 H8 H9 H10 H11 H12 H13]. rewrite F in *.
+    assert (R : req s = false). { destruct (req s) eqn:R; [|reflexivity]. exfalso. destruct (proj1 H5 eq_refl) as [X | [b X]]; discriminate. }
+    constructor; cbn; auto; try discriminate.
+    + intros _. apply prefix_refl.
+    + intros D. assert (X : req s = true) by (apply H4; now right). congruence.
+    + split; [intros _; now left | reflexivity].
+  - (* FlushRet *)
+    destruct (fl s) eqn:F; try discriminate. destruct (negb done || _) eqn:C in Hs; [|discriminate].
+    inversion Hs; subst s'; clear Hs.
+    destruct I as [H1 H2 H3 H4 H5 H6 H7 H8 H9 H10 H11 H12 H13]. rewrite F in *. constructor; cbn; auto; try discriminate.
+    + rewrite H5. split; intros _; [right; now exists done | now left].
+    + intros X. inversion X; subst done. cbn in C. destruct (fp s); try discriminate. reflexivity.
+  - (* PollTake *) eapply take_inv; eauto; intros; discriminate.
+  - (* PollEmpty *)
+    destruct (fp s) eqn:P; try discriminate. destruct (q s) eqn:Q; try discriminate. inversion Hs; subst s'; clear Hs.
+    destruct I as [H1 H2 H3 H4 H5 H6 H7 H8 H9 H10 H11 H12 H13]. constructor; cbn; auto; try discriminate.
+    + rewrite H1, Q. reflexivity.
+    + intros [X | X]; discriminate.
+    + intros X. specialize (H6 X). congruence.
+  - (* InnerTake *) eapply take_inv; eauto; intros; discriminate.
+  - (* InnerSync *)
+    destruct (fp s) eqn:P; try discriminate. destruct (req s) eqn:R; [|discriminate]. inversion Hs; subst s'; clear Hs.
+    destruct I as [H1 H2 H3 H4 H5 H6 H7 H8 H9 H10 H11 H12 H13]. constructor; cbn; auto; try discriminate.
+    + split; [intros _; apply H5; exact R | reflexivity].
+    + intros X. specialize (H6 X). congruence.
+  - (* DrainTake *) eapply take_inv; eauto.
+  - (* DrainDone *)
+    destruct (fp s) eqn:P; try discriminate. destruct (q s) eqn:Q; try discriminate. inversion Hs; subst s'; clear Hs.
+    destruct I as [H1 H2 H3 H4 H5 H6 H7 H8 H9 H10 H11 H12 H13]. constructor; cbn; auto.
+    + rewrite H1, Q. reflexivity.
+    + intros _. rewrite Q, app_nil_r in H1. rewrite <- H1. apply H2. apply H4. now left.
+Qed.
+
+(* ---------- runs ---------- *)
+
+Lemma run_app cap a : forall s b,
+  run cap s (a ++ b) = match run cap s a with Some m => run cap m b | None => None end.
+Proof.
+  induction a as [|l a IH]; intros s b; [reflexivity|]. unfold run in *. cbn.
+  destruct (gstep true cap s l); [apply IH | reflexivity].
+Qed.
+
+Lemma run_inv cap ls : forall s s', Inv s -> run cap s ls = Some s' -> Inv s'.
+Proof.
+  induction ls as [|l ls IH]; intros s s' HI Hr; unfold run in *; cbn in Hr. { now inversion Hr; subst. }
+  destruct (gstep true cap s l) eqn:E; [|discriminate]. eapply IH; [eapply Inv_step; eauto | eauto].
+Qed.
+
+Lemma reach_inv cap ls s : run cap init ls = Some s -> Inv s.
+Proof. apply run_inv. apply Inv_init. Qed.
+
+Ltac crush_step Hs :=
+  unfold step, gstep, take in Hs;
+  repeat match type of Hs with
+  | context [match ?x with _ => _ end] => destruct x eqn:?; try discriminate
+  | context [if ?x then _ else _] => destruct x eqn:?; try discriminate
+  end;
+  inversion Hs; subst; clear Hs; cbn.
+
+Ltac eqb_subst :=
+  repeat match goal with
+  | H : _ && _ = true |- _ => apply andb_true_iff in H; destruct H
+  | H : entry_eqb _ _ = true |- _ => apply entry_eqb_eq in H; subst
+  end.
+
+(* the ghost histories are the projections of the label sequence *)
+Lemma step_ghost cap s l s' : step cap s l = Some s' ->
+  written s' = written s ++ writes_of [l] /\ retd s' = rets_of [l] ++ retd s /\ prefix (hist s) (hist s').
+Proof.
+  intros Hs. destruct l; crush_step Hs; eqb_subst; rewrite ?app_nil_r; repeat split;
+    try apply prefix_refl; try (apply prefix_app; apply prefix_refl).
+Qed.
+
+Lemma run_ghost cap ls : forall s s', run cap s ls = Some s' ->
+  written s' = written s ++ writes_of ls /\ retd s' = rev (rets_of ls) ++ retd s /\ prefix (hist s) (hist s').
+Proof.
+  induction ls as [|l ls IH]; intros s s' Hr; unfold run in *; cbn in Hr.
+  - inversion Hr; subst. cbn. rewrite app_nil_r. repeat split. apply prefix_refl.
+  - destruct (gstep true cap s l) as [m|] eqn:E; [|discriminate].
+    destruct (step_ghost _ _ _ _ E) as (W & R & P). destruct (IH _ _ Hr) as (W' & R' & P').
+    repeat split.
+    + rewrite W', W. cbn [writes_of] in *. rewrite <- app_assoc. f_equal.
+      destruct l; cbn; reflexivity.
+    + rewrite R', R. destruct l; cbn; rewrite <- ?app_assoc; reflexivity.
+    + eapply prefix_trans; eauto.
+Qed.
+
+(* FlushLogger is called once; what it has to wait for is fixed at the call *)
+Lemma step_pre_call cap s l s' : step cap s l = Some s' -> fl s <> FNone -> pre_call s' = pre_call s /\ fl s' <> FNone.
+Proof.
+  intros Hs. destruct l; crush_step Hs; intros F; split; auto; try congruence; try discriminate.
+Qed.
+Lemma run_pre_call cap ls : forall s s', run cap s ls = Some s' -> fl s <> FNone -> pre_call s' = pre_call s /\ fl s' <> FNone.
+Proof.
+  induction ls as [|l ls IH]; intros s s' Hr F; unfold run in *; cbn in Hr. { inversion Hr; subst. auto. }
+  destruct (gstep true cap s l) as [m|] eqn:E; [|discriminate].
+  destruct (step_pre_call _ _ _ _ E F) as [P F']. destruct (IH _ _ Hr F') as [P' F'']. split; [congruence | assumption].
+Qed.
+
+(* once the flusher has acknowledged the flush it writes nothing more *)
+Lemma step_done cap s l s' : step cap s l = Some s' -> fp s = Done -> fp s' = Done /\ writes_of [l] = [].
+Proof. intros Hs F. destruct l; unfold step, gstep, take in Hs; rewrite ?F in Hs; crush_step Hs; split; auto; try congruence; try discriminate. Qed.
+Lemma run_done cap ls : forall s s', run cap s ls = Some s' -> fp s = Done -> fp s' = Done /\ writes_of ls = [].
+Proof.
+  induction ls as [|l ls IH]; intros s s' Hr F; unfold run in *; cbn in Hr. { inversion Hr; subst. auto. }
+  destruct (gstep true cap s l) as [m|] eqn:E; [|discriminate].
+  destruct (step_done _ _ _ _ E F) as [P W]. destruct (IH _ _ Hr P) as [P' W']. split; [assumption|].
+  destruct l; cbn in *; try assumption; discriminate.
+Qed.
+
+(* every entry in the system was submitted by a logging call *)
+Definition submitted (s : st) (C : list entry) : Prop :=
+  (forall e, In e (hist s) -> In e C) /\ (forall g e, lp s g = LSending e \/ lp s g = LSent e -> In e C).
+Lemma step_submitted cap s l s' C : step cap s l = Some s' -> submitted s C -> submitted s' (C ++ calls_of [l]).
+Proof.
+  intros Hs [H1 H2]. destruct l; crush_step Hs; eqb_subst; rewrite ?app_nil_r; split; auto; cbn.
+  - intros x Hin. apply in_or_app. left. auto.
+  - intros g x. unfold upd. destruct (g =? eg e) eqn:E.
+    + intros [X | X]; inversion X; subst. apply in_or_app. right. now left.
+    + intros X. apply in_or_app. left. eauto.
+  - intros x Hin. apply in_app_or in Hin. destruct Hin as [Hin | [<- | []]]; eauto.
+  - intros g' x. unfold upd. destruct (g' =? g) eqn:E; [|eauto].
+    intros [X | X]; inversion X; subst. eauto.
+  - intros g x. unfold upd. destruct (g =? eg e0) eqn:E; [intros [X | X]; discriminate | eauto].
+Qed.
+Lemma run_submitted cap ls : forall s s' C, run cap s ls = Some s' -> submitted s C -> submitted s' (C ++ calls_of ls).
+Proof.
+  induction ls as [|l ls IH]; intros s s' C Hr S; unfold run in *; cbn in Hr. { inversion Hr; subst. cbn. now rewrite app_nil_r. }
+  destruct (gstep true cap s l) as [m|] eqn:E; [|discriminate].
+  pose proof (IH _ _ _ Hr (step_submitted _ _ _ _ _ E S)) as X. rewrite <- app_assoc in X.
+  replace (calls_of (l :: ls)) with (calls_of [l] ++ calls_of ls); [exact X|]. destruct l; reflexivity.
+Qed.
+
+Lemma run_cons cap s l r : run cap s (l :: r) = match step cap s l with Some s' => run cap s' r | None => None end.
+Proof. reflexivity. Qed.
+
+Lemma run_split cap a : forall s l b s', run cap s (a ++ l :: b) = Some s' ->
+  exists m m', run cap s a = Some m /\ step cap m l = Some m' /\ run cap m' b = Some s'.
+Proof.
+  intros s l b s' H. rewrite run_app in H. destruct (run cap s a) as [m|] eqn:A; [|discriminate].
+  rewrite run_cons in H. destruct (step cap m l) as [m'|] eqn:S; [|discriminate].
+  exists m, m'. auto.
+Qed.
+
+Lemma run_snoc cap a s l m m' : run cap s a = Some m -> step cap m l = Some m' -> run cap s (a ++ [l]) = Some m'.
+Proof. intros A S. rewrite run_app, A, run_cons, S. reflexivity. Qed.
+
+Lemma run_init_ghost cap ls s : run cap init ls = Some s ->
+  written s = writes_of ls /\ retd s = rev (rets_of ls).
+Proof. intros H. destruct (run_ghost _ _ _ _ H) as (W & R & _). cbn in W, R. rewrite app_nil_r in R. auto. Qed.
+
+(* ---------- the property ---------- *)
+
+(* Completeness. FlushLogger is called after [l1]; it returns, woken by the flusher's acknowledgement, after [l2].
+   Every entry whose logging call returned during [l1] has been handed to its writer by then. *)
+Theorem flush_complete cap l1 l2 l3 s :
+  run cap init (l1 ++ FlushCall :: l2 ++ FlushRet true :: l3) = Some s ->
+  forall e, In e (rets_of l1) -> In e (writes_of (l1 ++ FlushCall :: l2)).
+Proof.
+  intros H e He.
+  destruct (run_split _ _ _ _ _ _ H) as (s1 & s1' & R1 & S1 & H').
+  destruct (run_split _ _ _ _ _ _ H') as (s2 & s3 & R2 & S2 & _).
+  assert (R12 : run cap init (l1 ++ FlushCall :: l2) = Some s2).
+  { rewrite run_app, R1, run_cons, S1. exact R2. }
+  destruct (run_init_ghost _ _ _ R1) as [_ Rd]. destruct (run_init_ghost _ _ _ R12) as [Wr _].
+  assert (PC : pre_call s1' = retd s1 /\ fl s1' <> FNone).
+  { unfold step, gstep in S1. destruct (fl s1); try discriminate. inversion S1; subst; cbn. split; [reflexivity | discriminate]. }
+  destruct PC as [PC F1]. destruct (run_pre_call _ _ _ _ R2 F1) as [PC2 _].
+  assert (X : fl s2 = FRequested /\ fp s2 = Done).
+  { unfold step, gstep in S2. destruct (fl s2); try discriminate. cbn in S2. destruct (fp s2); try discriminate. auto. }
+  destruct X as [F2 D2]. pose proof (reach_inv _ _ _ R12) as I.
+  assert (Rq : req s2 = true) by (apply (i_fl_req _ I); now left).
+  rewrite <- Wr. apply (prefix_incl _ _ (i_done _ I D2)). apply (i_pc2 _ I Rq).
+  rewrite PC2, PC, Rd. apply in_rev in He. exact He.
+Qed.
+
+(* ... and the flusher writes nothing after its acknowledgement *)
+Theorem no_write_after_ack cap l1 l3 s :
+  run cap init (l1 ++ FlushRet true :: l3) = Some s -> writes_of l3 = [].
+Proof.
+  intros H. destruct (run_split _ _ _ _ _ _ H) as (s2 & s3 & R2 & S2 & R3).
+  assert (D : fp s3 = Done).
+  { unfold step, gstep in S2. destruct (fl s2); try discriminate. cbn in S2. destruct (fp s2) eqn:P; try discriminate.
+    inversion S2; subst; cbn. reflexivity. }
+  apply (run_done _ _ _ _ R3 D).
+Qed.
+
+(* Exactly once, in per-goroutine order: the sequence of Writes has no duplicates and, within one goroutine,
+   ascending sequence numbers. One *Take label is one Write of one whole entry. *)
+Theorem writes_ordered cap ls s : run cap init ls = Some s -> ord (writes_of ls).
+Proof.
+  intros H. pose proof (reach_inv _ _ _ H) as I. destruct (run_init_ghost _ _ _ H) as [W _]. rewrite <- W.
+  pose proof (i_ord _ I) as O. rewrite (i_hist _ I) in O. eapply ord_app_l; eauto.
+Qed.
+Theorem writes_once cap ls s : run cap init ls = Some s -> NoDup (writes_of ls).
+Proof. intros H. apply ord_NoDup. eapply writes_ordered; eauto. Qed.
+Theorem writes_per_goroutine_order cap ls s : run cap init ls = Some s ->
+  forall a e1 b e2 c, writes_of ls = a ++ e1 :: b ++ e2 :: c -> eg e1 = eg e2 -> en e1 < en e2.
+Proof. intros H. apply ord_split. eapply writes_ordered; eauto. Qed.
+
+(* nothing is lost on the way: what was enqueued is written or still queued, in queue order *)
+Theorem conservation cap ls s : run cap init ls = Some s -> hist s = writes_of ls ++ q s.
+Proof. intros H. destruct (run_init_ghost _ _ _ H) as [<- _]. apply (i_hist _ (reach_inv _ _ _ H)). Qed.
+
+Lemma writes_of_app a b : writes_of (a ++ b) = writes_of a ++ writes_of b.
+Proof. induction a as [|x a IH]; cbn; [reflexivity|]. destruct x; cbn; rewrite IH; reflexivity. Qed.
+Lemma calls_of_app a b : calls_of (a ++ b) = calls_of a ++ calls_of b.
+Proof. induction a as [|x a IH]; cbn; [reflexivity|]. destruct x; cbn; rewrite IH; reflexivity. Qed.
+Lemma rets_of_app a b : rets_of (a ++ b) = rets_of a ++ rets_of b.
+Proof. induction a as [|x a IH]; cbn; [reflexivity|]. destruct x; cbn; rewrite IH; reflexivity. Qed.
+
+(* a Write hands over an entry that a logging call submitted before, addressed to that writer *)
+Theorem write_was_logged cap a l b s e :
+  run cap init (a ++ l :: b) = Some s -> writes_of [l] = [e] -> In e (calls_of a).
+Proof.
+  intros H Wl. destruct (run_split _ _ _ _ _ _ H) as (m & m' & R1 & S & _).
+  pose proof (run_snoc _ _ _ _ _ _ R1 S) as R.
+  assert (Sub : submitted m' (calls_of (a ++ [l]))).
+  { apply (run_submitted _ _ _ _ [] R). split; cbn; [intros ? [] | intros ? ? [X | X]; discriminate]. }
+  destruct (run_init_ghost _ _ _ R) as [W _]. pose proof (reach_inv _ _ _ R) as I.
+  assert (Hin : In e (hist m')).
+  { rewrite (i_hist _ I), W, writes_of_app, Wl. apply in_or_app. left. apply in_or_app. right. now left. }
+  apply (proj1 Sub) in Hin. rewrite calls_of_app in Hin. apply in_app_or in Hin. destruct Hin as [Hin | Hin]; [exact Hin|].
+  destruct l; cbn in *; try discriminate; contradiction.
+Qed.
+
+(* FIFO across goroutines: if the call of e1 returned before the call of e2 began, e2 is not written before e1 *)
+Lemma prefix_snoc_inv a x (e : entry) : prefix a (x ++ [e]) -> prefix a x \/ a = x ++ [e].
+Proof.
+  intros [c Hc]. destruct c as [|y c] using rev_ind.
+  - right. rewrite app_nil_r in Hc. auto.
+  - left. rewrite app_assoc in Hc. apply app_inj_tail in Hc. destruct Hc as [-> _]. now exists c.
+Qed.
+
+Theorem fifo_real_time cap a e1 b e2 c s x y :
+  run cap init (a ++ LogRet e1 :: b ++ LogCall e2 :: c) = Some s ->
+  writes_of (a ++ LogRet e1 :: b ++ LogCall e2 :: c) = x ++ e2 :: y -> In e1 x.
+Proof.
+  intros H W.
+  destruct (run_split _ _ _ _ _ _ H) as (m0 & m1 & R0 & S1 & H').
+  destruct (run_split _ _ _ _ _ _ H') as (m2 & m3 & R2 & S2 & R3).
+  pose proof (run_snoc _ _ _ _ _ _ R0 S1) as R01.
+  pose proof (reach_inv _ _ _ R01) as I1.
+  assert (R012 : run cap init ((a ++ [LogRet e1]) ++ b) = Some m2) by (rewrite run_app, R01; exact R2).
+  pose proof (reach_inv _ _ _ R012) as I2. pose proof (reach_inv _ _ _ H) as I.
+  (* e1 is in the queue history when its call returns *)
+  assert (E1 : In e1 (hist m1)).
+  { apply (i_retd _ I1). unfold step, gstep in S1. destruct (lp m0 (eg e1)) eqn:L; try discriminate.
+    destruct (entry_eqb e1 e) eqn:C; [|discriminate]. apply entry_eqb_eq in C; subst. inversion S1; subst; cbn. now left. }
+  destruct (run_ghost _ _ _ _ R2) as (_ & _ & P12).
+  (* e2 is not yet in it when its call begins *)
+  assert (E2 : ~ In e2 (hist m2)).
+  { intros Hin. pose proof (i_lt _ I2 _ Hin) as L. unfold sent in L. unfold step, gstep in S2.
+    destruct (lp m2 (eg e2)); try discriminate. destruct (en e2 =? cnt m2 (eg e2)) eqn:C; [|discriminate].
+    apply N.eqb_eq in C. lia. }
+  assert (P2 : prefix (hist m2) (hist s)).
+  { destruct (step_ghost _ _ _ _ S2) as (_ & _ & Pa). destruct (run_ghost _ _ _ _ R3) as (_ & _ & Pb). eapply prefix_trans; eauto. }
+  assert (Px : prefix (x ++ [e2]) (hist s)).
+  { rewrite (conservation _ _ _ H), W. exists (y ++ q s). rewrite <- !app_assoc. reflexivity. }
+  destruct (prefix_comparable _ _ _ P2 Px) as [P | P].
+  - apply prefix_snoc_inv in P. destruct P as [P | P].
+    + apply (prefix_incl _ _ P). apply (prefix_incl _ _ P12). exact E1.
+    + exfalso. apply E2. rewrite P. apply in_or_app. right. now left.
+  - exfalso. apply E2. apply (prefix_incl _ _ P). apply in_or_app. right. now left.
+Qed.
+
+(* after the request the flusher is never blocked until it has acknowledged *)
+Definition flusher_label (l : label) : Prop :=
+  match l with PollTake _ | PollEmpty | InnerTake _ | InnerSync | DrainTake _ | DrainDone => True | _ => False end.
+Theorem flusher_not_blocked_after_request cap s :
+  req s = true -> fp s <> Done -> exists l s', flusher_label l /\ step cap s l = Some s'.
+Proof.
+  intros R D. unfold step, gstep, take. destruct (fp s) eqn:P; [| | |contradiction]; destruct (q s) as [|e r] eqn:Q.
+  - exists PollEmpty. eexists. split; [exact I | reflexivity].
+  - exists (PollTake e). rewrite entry_eqb_refl. eexists. split; [exact I | reflexivity].
+  - exists InnerSync. rewrite R. eexists. split; [exact I | reflexivity].
+  - exists (InnerTake e). rewrite entry_eqb_refl. eexists. split; [exact I | reflexivity].
+  - exists DrainDone. eexists. split; [exact I | reflexivity].
+  - exists (DrainTake e). rewrite entry_eqb_refl. eexists. split; [exact I | reflexivity].
+Qed.
